@@ -183,7 +183,7 @@ def segments(text, name="a.c", debug=0, timeout=10):
     from norminette.context import Context
     from norminette.exceptions import CParsingError
     f = File(name, text)
-    out = {"n0": None, "pops": [], "fatal": None, "exc": None, "status": None, "scope_end": None, "segs": []}
+    out = {"n0": None, "pops": [], "fatal": None, "exc": None, "status": None, "scope_end": None, "segs": [], "depth": []}
     orig = Context.pop_tokens
 
     def wrapper(self, stop):
@@ -192,8 +192,12 @@ def segments(text, name="a.c", debug=0, timeout=10):
         seg = toks[:stop]
         if seg:
             first, last = seg[0], seg[-1]
+            # the scope after this statement (Context.update ran before pop_tokens); a statement
+            # made of a '}' at column 1 closes a function
+            closes_function = first.type == "RBRACE" and first.pos[1] == 1
             out["segs"].append((first.pos[0], first.pos[1], last.type, last.pos[0],
                                 self.history[-1].name if self.history else None))
+            out["depth"].append((first.pos[0], self.scope.name, closes_function))
         return orig(self, stop)
     Context.pop_tokens = wrapper
     buf = io.StringIO()
